@@ -108,7 +108,8 @@ def check_function(chk, db, f, family, pos_name, needle_atom, hay_atom, rule="EX
         for c in conds:
             T.atoms(c, atom_sorts)
         for need in (pos_name, needle_atom, hay_atom):
-            atom_sorts.setdefault(need, "u")
+            if need is not None:
+                atom_sorts.setdefault(need, "u")
         unknown = any(T.has_unknown(c) for c in conds)
         bad = None
         nm = 0
@@ -122,7 +123,8 @@ def check_function(chk, db, f, family, pos_name, needle_atom, hay_atom, rule="EX
                     nm += 1
                     if not all(T.truth(c, m) is True for c in inst):
                         continue
-                    p_, n_, s_ = m.get(pos_name, 0), m.get(needle_atom, 0), m.get(hay_atom, 0)
+                    # a single character is a needle of length 1
+                    p_, n_, s_ = m.get(pos_name, 0), (1 if needle_atom is None else m.get(needle_atom, 0)), m.get(hay_atom, 0)
                     if val == "npos" and feasible(family, p_, n_, s_):
                         bad = ("returns npos although a result is possible", m)
                         break
